@@ -543,4 +543,132 @@ theorem inv_send {s s' : St} {c sd dst : Addr} {d : Denom} {x : Int} (hI : Inv s
     · show l ≤ ((s.bank.credit lock fee (-x)).credit dst fee x).bal lock fee + ((s.bank.credit lock fee (-x)).credit dst fee x).bal "plock" bond + s.stake "plock" + sumUnb "plock" s.ubds
       rw [hP]; omega
 
+/-- ops that only add to the three tracked balances (or leave them) and touch nothing else of the lockup -/
+theorem inv_mono {s s' : St} (hI : Inv s)
+    (e1 : s'.variant = s.variant) (e2 : s'.created = s.created) (e3 : s'.OL = s.OL) (e4 : s'.startT = s.startT)
+    (e5 : s'.endT = s.endT) (e6 : s'.DV = s.DV) (e7 : s'.DF = s.DF) (e8 : s'.entries = s.entries)
+    (e9 : s'.ubds = s.ubds) (e10 : s'.scUnb = s.scUnb) (e11 : s'.now = s.now) (e12 : s'.ut = s.ut)
+    (e13 : s'.stake "plock" = s.stake "plock")
+    (h1 : s.bank.bal lock fee ≤ s'.bank.bal lock fee) (h2 : s'.bank.bal lock shareD = s.bank.bal lock shareD)
+    (h3 : s.bank.bal "plock" bond ≤ s'.bank.bal "plock" bond) : Inv s' := by
+  have hL : ∀ t, lockedT s' t = lockedT s t := by intro t; unfold lockedT; rw [e1, e3, e4, e5]
+  have hB : blocked s' = blocked s := by unfold blocked; rw [e8, e11, e1]
+  have hC : custody s ≤ custody s' := by
+    unfold custody; rw [e1, e9, e10, e13, h2]; cases s.variant <;> simp only <;> omega
+  have hA : actualDelegated s ≤ actualDelegated s' := by
+    unfold actualDelegated; rw [e1, e9, e8, e13, h2]; cases s.variant <;> simp only <;> omega
+  constructor
+  · rw [e3]; exact hI.ol0
+  · rw [e12]; exact hI.ut0
+  · rw [e6]; exact hI.dv0
+  · rw [e7]; exact hI.df0
+  · have := hI.bL0; omega
+  · rw [h2]; exact hI.bS0
+  · have := hI.bP0; omega
+  · rw [e13]; exact hI.st0
+  · rw [e9]; exact hI.ubd0
+  · rw [e10]; exact hI.sc0
+  · intro hc t l ht hl
+    rw [e2] at hc; rw [e11] at ht; rw [hL] at hl; rw [e6]
+    have := hI.cover hc t l ht hl; omega
+  · rw [e6, e7]; have := hI.tracked; omega
+  · intro hv hb
+    rw [e1] at hv; rw [hB] at hb; rw [e6, e7, h2, e10]
+    exact hI.liveNv hv hb
+  · rw [e10, e8]; exact hI.scHead
+  · rw [e8, e11, e12]; exact hI.headUt
+  · intro hc t l ht hl
+    rw [e2] at hc; rw [e11] at ht; rw [hL] at hl
+    have := hI.cust hc t l ht hl; omega
+
+theorem claim_bal (b : Bank) (w : Addr) (e : Ext) (a : Addr) (d : Denom) :
+    (claim b w e).bal a d = b.bal a d + (if a = w ∧ d = fee then e.rewFee else 0) + (if a = w ∧ d = bond then e.rewBond else 0) := by
+  unfold claim
+  simp only [Bank.credit_bal, fee, bond]
+  by_cases c1 : a = w <;> by_cases c2 : d = "urise" <;> by_cases c3 : d = "uvrise" <;> simp_all
+
+theorem credit2_ge (b : Bank) (src dst a : Addr) (d dn : Denom) (x : Int) (hx : 0 ≤ x) (hne : ¬(a = src ∧ dn = d)) :
+    b.bal a dn ≤ ((b.credit src d (-x)).credit dst d x).bal a dn := by
+  simp only [Bank.credit_bal]
+  by_cases c : a = dst ∧ dn = d
+  · obtain ⟨rfl, rfl⟩ := c
+    have hne' : ¬ (a = src ∧ True) := fun h => hne ⟨h.1, rfl⟩
+    simp only [and_self, if_true, hne, hne', if_false]; omega
+  · simp only [c, if_false, hne]; omega
+
+theorem inv_deposit {s s' : St} {src dst : Addr} {d : Denom} {x : Int} (hI : Inv s) (ho : src ≠ lock ∧ src ≠ "plock")
+    (h : Lockup.apply s (.deposit src dst d x) = .ok s') : Inv s' := by
+  simp only [Lockup.apply] at h
+  obtain ⟨b, hb, h⟩ := Bank.bind_ok h
+  obtain ⟨xpos, hdis, hsend⟩ := msgSend_bal hb
+  obtain ⟨_, _, eb⟩ := Bank.send_ok hsend
+  simp only [Res.ok.injEq] at h
+  subst h eb
+  have hd1 : d ≠ shareD := by intro e; subst e; simp [sendDisabled, shareD, bond] at hdis
+  have hd2 : d ≠ bond := by intro e; subst e; simp [sendDisabled, shareD, bond] at hdis
+  refine inv_mono hI rfl rfl rfl rfl rfl rfl rfl rfl rfl rfl rfl rfl rfl ?_ ?_ ?_
+  · show s.bank.bal lock fee ≤ ((s.bank.credit src d (-x)).credit dst d x).bal lock fee
+    exact credit2_ge _ _ _ _ _ _ _ (by omega) (fun c => ho.1 c.1.symm)
+  · show ((s.bank.credit src d (-x)).credit dst d x).bal lock shareD = s.bank.bal lock shareD
+    simp [Bank.credit_bal, Ne.symm hd1]
+  · show s.bank.bal "plock" bond ≤ ((s.bank.credit src d (-x)).credit dst d x).bal "plock" bond
+    simp [Bank.credit_bal, Ne.symm hd2]
+
+theorem inv_pxSend {s s' : St} {d c sd dst : Addr} {dn : Denom} {x : Int} (hI : Inv s)
+    (h : doPxSend s d c sd dst dn x = .ok s') : Inv s' := by
+  simp only [doPxSend] at h
+  split at h; · simp at h
+  split at h; · simp at h
+  obtain ⟨b, hb, h⟩ := Bank.bind_ok h
+  obtain ⟨xpos, hdis, hsend⟩ := msgSend_bal hb
+  obtain ⟨_, _, eb⟩ := Bank.send_ok hsend
+  simp only [Res.ok.injEq] at h
+  subst h eb
+  have hd1 : dn ≠ shareD := by intro e; subst e; simp [sendDisabled, shareD, bond] at hdis
+  have hd2 : dn ≠ bond := by intro e; subst e; simp [sendDisabled, shareD, bond] at hdis
+  have hp : proxyOf d ≠ lock := by unfold proxyOf lock; split <;> decide
+  refine inv_mono hI rfl rfl rfl rfl rfl rfl rfl rfl rfl rfl rfl rfl rfl ?_ ?_ ?_
+  · show s.bank.bal lock fee ≤ ((s.bank.credit (proxyOf d) dn (-x)).credit dst dn x).bal lock fee
+    exact credit2_ge _ _ _ _ _ _ _ (by omega) (fun c => hp c.1.symm)
+  · show ((s.bank.credit (proxyOf d) dn (-x)).credit dst dn x).bal lock shareD = s.bank.bal lock shareD
+    simp [Bank.credit_bal, Ne.symm hd1]
+  · show s.bank.bal "plock" bond ≤ ((s.bank.credit (proxyOf d) dn (-x)).credit dst dn x).bal "plock" bond
+    simp [Bank.credit_bal, Ne.symm hd2]
+
+theorem inv_nvWithdrawReward {s s' : St} {c sd : Addr} {e : Ext} (hI : Inv s) (he : extOk e)
+    (h : doNvWithdrawReward s c sd e = .ok s') : Inv s' := by
+  simp only [doNvWithdrawReward] at h
+  split at h; · simp at h
+  split at h; · simp at h
+  split at h; · simp at h
+  simp only [Res.ok.injEq] at h
+  subst h
+  refine inv_mono hI rfl rfl rfl rfl rfl rfl rfl rfl rfl rfl rfl rfl rfl ?_ ?_ ?_
+  · show s.bank.bal lock fee ≤ (claim s.bank lock e).bal lock fee
+    rw [claim_bal]; simp [fee, bond]
+    try exact he.1
+  · show (claim s.bank lock e).bal lock shareD = s.bank.bal lock shareD
+    rw [claim_bal]; simp [fee, bond, shareD]
+  · show s.bank.bal "plock" bond ≤ (claim s.bank lock e).bal "plock" bond
+    rw [claim_bal]; simp [lock]
+
+theorem inv_pxWithdrawReward {s s' : St} {d c sd : Addr} {e : Ext} (hI : Inv s) (he : extOk e)
+    (h : doPxWithdrawReward s d c sd e = .ok s') : Inv s' := by
+  simp only [doPxWithdrawReward] at h
+  split at h; · simp at h
+  split at h; · simp at h
+  split at h; · simp at h
+  simp only [Res.ok.injEq] at h
+  subst h
+  have hp : proxyOf d ≠ lock := by unfold proxyOf lock; split <;> decide
+  refine inv_mono hI rfl rfl rfl rfl rfl rfl rfl rfl rfl rfl rfl rfl rfl ?_ ?_ ?_
+  · show s.bank.bal lock fee ≤ (claim s.bank (proxyOf d) e).bal lock fee
+    rw [claim_bal]; simp [Ne.symm hp]
+  · show (claim s.bank (proxyOf d) e).bal lock shareD = s.bank.bal lock shareD
+    rw [claim_bal]; simp [fee, bond, shareD]
+  · show s.bank.bal "plock" bond ≤ (claim s.bank (proxyOf d) e).bal "plock" bond
+    rw [claim_bal]; simp [fee, bond]
+    have := he.2
+    split <;> omega
+
 end Sunrise.C12
